@@ -138,16 +138,19 @@ class FitLoop(NdContract):
             kk = st.env["$k0"]
             eng.oblige(st, "every_grid_point_trains_its_own_independent_copy_of_the_estimator", BoolVal(recv.kind in ("copy_of_the_base_estimator", "constant")), "wiring", node)
             labels, w = (args[1] if len(args) > 1 else None), kwargs.get("sample_weight")
-            eng.oblige(st, "learner_gets_X_unchanged_and_weights_under_sample_weight_name", BoolVal(bool(args) and args[0] is self.X and is_nd(w) and set(kwargs) == {"sample_weight"}), "wiring", node)
-            if not (is_nd(labels) and is_nd(w) and labels.cell and w.cell):
+            const = recv.kind == "constant"
+            # the constant classifier (single relabelled value) may be fitted without weights: it does not depend on them (all zero when every signed weight vanishes)
+            eng.oblige(st, "learner_gets_X_unchanged_and_weights_under_sample_weight_name",
+                       BoolVal(bool(args) and args[0] is self.X and ((is_nd(w) and set(kwargs) == {"sample_weight"}) or (const and not kwargs))), "wiring", node)
+            if not (is_nd(labels) and labels.cell) or (w is not None and not (is_nd(w) and w.cell)):
                 raise Unsupported("labels/weights lost their point-wise view")
             wk = WC(kk, GI) + If(self.in_span, 0, WO(GI))
             rng = in_range((n,), (GI,))
             eng.oblige(st, "classification_labels_are_one_where_the_weight_is_positive",
                        Implies(And(rng, self.is_clf), to_real(labels.cell(GI)) == If(wk > 0, 1, 0)), "reduction", node)
-            eng.oblige(st, "classification_weights_are_the_absolute_signed_weights", Implies(And(rng, self.is_clf), to_real(w.cell(GI)) == If(wk >= 0, wk, -wk)), "reduction", node)
-            eng.oblige(st, "regression_keeps_the_moments_labels_and_signed_weights",
-                       Implies(And(rng, Not(self.is_clf)), to_real(w.cell(GI)) == wk) if getattr(labels, "moment_y", False) or True else BoolVal(True), "reduction", node)
+            if w is not None:
+                eng.oblige(st, "classification_weights_are_the_absolute_signed_weights", Implies(And(rng, self.is_clf), to_real(w.cell(GI)) == If(wk >= 0, wk, -wk)), "reduction", node)
+                eng.oblige(st, "regression_keeps_the_moments_labels_and_signed_weights", Implies(And(rng, Not(self.is_clf)), to_real(w.cell(GI)) == wk), "reduction", node)
             if isinstance(st.env.get("y_reduction_unique"), Abstract):
                 cnt = st.env["y_reduction_unique"].count
                 eng.oblige(st, "constant_classifier_iff_a_single_relabelled_value", (cnt == 1) == BoolVal(recv.kind == "constant"), "reduction", node)
